@@ -10,8 +10,16 @@ Reading of the property's words: "case-insensitively" = modulo ASCII case (`asci
 "contains" / "prefix" = contiguous substring / prefix of the string; for two routes with the same pattern and
 kind the later `add_route` wins (the property leaves this open; `router_longest_prefix` states what the code
 does).
+
+Round 2 (extension): the layer VALUES are modelled too — `PrefixLayer::new`, the `FilterLayer` builder
+(`default()`, `from_patterns`, `add_pattern`, `case_insensitive`, `use_dfa`) and one layer value applied several
+times with changes in between (`filter_builder_*`, `layer_reuse_*`, `prefix_*`); sequences of calls on one handle
+(`fanout_all_once_seq`, `handle_stateless`); source facts pinning the trie lookup of `Router::route`, the arms of
+`add_route`, the builder bodies, the field lists and loops of the `Fanout*` handles and the three pushes of
+`prefix_key*` (`src_*`).
 -/
 import MetricsVerif.Proofs.Layers
+import MetricsVerif.Generated.SourceFacts
 
 namespace MetricsVerif.C13
 open MetricsVerif.Layers
@@ -308,6 +316,251 @@ theorem stack_append (inner : Rec) (ls₁ ls₂ : List Layer) :
     stack inner (ls₁ ++ ls₂) = stack (stack inner ls₁) ls₂ := by
   simp [stack, List.foldl_append]
 
+/-! ## the layer values: `PrefixLayer::new`, the `FilterLayer` builder, one layer value used several times -/
+
+/-- a layer made by `PrefixLayer::new(p)` behaves as `prefix_exact` says for exactly the `p` it was given … -/
+theorem prefix_layer_exact (p : Str) (r : Rec) (op : Op) :
+    (prefixLayer p r).deliver op = r.deliver { op with name := p ++ ['.'] ++ op.name }
+    ∧ (prefixLayer p r).handle op = r.handle { op with name := p ++ ['.'] ++ op.name } :=
+  prefix_exact p r op
+
+/-- … and nothing about the prefix is normalised away: different prefixes (say `a` and `a.`, or `a` and `a` plus a
+    blank) give different names for every metric name; the delivered name is exactly one character longer than
+    prefix plus name -/
+theorem prefix_faithful (p q name : Str) :
+    (prefixName p name = prefixName q name → p = q)
+    ∧ (prefixName p name).length = p.length + 1 + name.length := by
+  constructor
+  · intro h
+    exact List.append_cancel_right h
+  · simp [prefixName]; omega
+
+/-- the patterns a chain of builder calls adds, in call order -/
+def addedPats : List FOp → List Str
+  | [] => []
+  | .add p :: rest => p :: addedPats rest
+  | .ci _ :: rest => addedPats rest
+  | .dfa _ :: rest => addedPats rest
+
+/-- is this call `case_insensitive(_)`? -/
+def isCi : FOp → Bool
+  | .ci _ => true
+  | _ => false
+
+/-- is this call `use_dfa(_)`? -/
+def isDfa : FOp → Bool
+  | .dfa _ => true
+  | _ => false
+
+/-- **filter_builder_patterns**: after any chain of builder calls the layer holds the patterns it started with
+    followed by every pattern passed to `add_pattern`, in order — none dropped, merged, re-cased or skipped
+    (duplicates, case variants of earlier patterns and the empty pattern included). -/
+theorem filter_builder_patterns (c : FilterCfg) (ops : List FOp) :
+    (c.run ops).patterns = c.patterns ++ addedPats ops := by
+  induction ops generalizing c with
+  | nil => simp [FilterCfg.run_nil, addedPats]
+  | cons o rest ih =>
+    rw [FilterCfg.run_cons, ih]
+    cases o <;> simp [FilterCfg.step, addedPats]
+
+/-- without a `case_insensitive` call the layer keeps the case sensitivity it started with (`false` for both
+    constructors, see `filter_defaults`) … -/
+theorem filter_builder_ci_unset (c : FilterCfg) (ops : List FOp) (h : ∀ o ∈ ops, isCi o = false) :
+    (c.run ops).ci = c.ci := by
+  induction ops generalizing c with
+  | nil => rfl
+  | cons o rest ih =>
+    rw [FilterCfg.run_cons, ih _ (fun o' ho' => h o' (List.mem_cons_of_mem _ ho'))]
+    have := h o (List.mem_cons_self ..)
+    cases o <;> simp_all [FilterCfg.step, isCi]
+
+/-- … and otherwise it is what the LAST `case_insensitive(b)` call said (a plain assignment: not sticky, not
+    or-ed with earlier calls) -/
+theorem filter_builder_ci_last (c : FilterCfg) (pre post : List FOp) (b : Bool)
+    (hpost : ∀ o ∈ post, isCi o = false) :
+    (c.run (pre ++ .ci b :: post)).ci = b := by
+  rw [FilterCfg.run_append, FilterCfg.run_cons, filter_builder_ci_unset _ _ hpost]
+  rfl
+
+/-- the two constructors: `from_patterns` keeps the patterns as given and is case-sensitive; `default()` has no
+    pattern, is case-sensitive and therefore forwards everything -/
+theorem filter_defaults (ps : List Str) (r : Rec) (op : Op) :
+    (FilterCfg.fromPatterns ps).layer r = .filter ps false r
+    ∧ FilterCfg.dflt.layer r = .filter [] false r
+    ∧ (FilterCfg.dflt.layer r).deliver op = r.deliver op
+    ∧ (FilterCfg.dflt.layer r).handle op = r.handle op := by
+  refine ⟨rfl, rfl, ?_, ?_⟩ <;> simp [FilterCfg.dflt, FilterCfg.layer, Rec.deliver, Rec.handle, shouldFilter]
+
+/-- **filter_builder_exact**: the layer produced by ANY chain of builder calls on either constructor drops an
+    operation exactly when one of the patterns it was given — at construction or by `add_pattern` — occurs in the
+    name, compared under the case sensitivity in force at the time of `.layer()`; dropped operations reach nobody
+    and return inert handles, all others are forwarded unchanged. -/
+theorem filter_builder_exact (c : FilterCfg) (ops : List FOp) (r : Rec) (op : Op) :
+    ((∃ p ∈ c.patterns ++ addedPats ops, fold (c.run ops).ci p <:+: fold (c.run ops).ci op.name) →
+        ((c.run ops).layer r).deliver op = [] ∧ ((c.run ops).layer r).handle op = .noop)
+    ∧ ((¬ ∃ p ∈ c.patterns ++ addedPats ops, fold (c.run ops).ci p <:+: fold (c.run ops).ci op.name) →
+        ((c.run ops).layer r).deliver op = r.deliver op ∧ ((c.run ops).layer r).handle op = r.handle op) := by
+  rw [← filter_builder_patterns]
+  exact filter_exact _ _ r op
+
+/-- `use_dfa` never matters: dropping every `use_dfa` call from the chain gives the same layer -/
+theorem filter_builder_dfa_irrelevant (c : FilterCfg) (ops : List FOp) (r : Rec) :
+    (c.run ops).layer r = (c.run (ops.filter (fun o => !isDfa o))).layer r := by
+  have key : ∀ (ops : List FOp) (c c' : FilterCfg), c.patterns = c'.patterns → c.ci = c'.ci →
+      (c.run ops).patterns = (c'.run (ops.filter (fun o => !isDfa o))).patterns
+      ∧ (c.run ops).ci = (c'.run (ops.filter (fun o => !isDfa o))).ci := by
+    intro ops
+    induction ops with
+    | nil => intro c c' h1 h2; exact ⟨h1, h2⟩
+    | cons o rest ih =>
+      intro c c' h1 h2
+      cases o with
+      | add p =>
+        simp only [isDfa, Bool.not_false, List.filter_cons_of_pos, FilterCfg.run_cons]
+        exact ih _ _ (by simp [FilterCfg.step, h1]) (by simp [FilterCfg.step, h2])
+      | ci b =>
+        simp only [isDfa, Bool.not_false, List.filter_cons_of_pos, FilterCfg.run_cons]
+        exact ih _ _ (by simp [FilterCfg.step, h1]) (by simp [FilterCfg.step])
+      | dfa b =>
+        simp only [isDfa, Bool.not_true, Bool.false_eq_true, not_false_eq_true, List.filter_cons_of_neg,
+          FilterCfg.run_cons]
+        exact ih _ _ (by simp [FilterCfg.step, h1]) (by simp [FilterCfg.step, h2])
+  obtain ⟨h1, h2⟩ := key ops c c rfl rfl
+  simp [FilterCfg.layer, h1, h2]
+
+/-- **layer_reuse_snapshot**: `.layer(inner)` takes `&self`; every application of ONE `FilterLayer` value builds
+    its filter from the fields as they are at that moment — it sees all builder calls made before it (also those
+    made after earlier applications: nothing is cached), none made after it, and applying the layer does not
+    change it. -/
+theorem layer_reuse_snapshot (c : FilterCfg) (pre post : List LStep) (inner : Rec) :
+    c.reuse (pre ++ .layer inner :: post)
+      = c.reuse pre ++ (c.run (cfgOps pre)).layer inner :: (c.run (cfgOps pre)).reuse post := by
+  induction pre generalizing c with
+  | nil => simp [FilterCfg.reuse, cfgOps, FilterCfg.run_nil]
+  | cons st rest ih =>
+    cases st with
+    | cfg o => simp [FilterCfg.reuse, cfgOps, FilterCfg.run_cons, ih]
+    | layer i => simp [FilterCfg.reuse, cfgOps, ih]
+
+/-- builder calls after the last application change none of the recorders already built -/
+theorem layer_reuse_trailing (c : FilterCfg) (steps : List LStep) (os : List FOp) :
+    c.reuse (steps ++ os.map .cfg) = c.reuse steps := by
+  induction steps generalizing c with
+  | nil =>
+    induction os generalizing c with
+    | nil => rfl
+    | cons o rest ih => simpa [FilterCfg.reuse] using ih (c.step o)
+  | cons st rest ih =>
+    cases st with
+    | cfg o => simpa [FilterCfg.reuse] using ih (c.step o)
+    | layer i => simp [FilterCfg.reuse, ih]
+
+/-- one `PrefixLayer` value applied to several recorders prefixes each of them with the same, unchanged prefix -/
+theorem prefix_reuse (p : Str) (rs : List Rec) (op : Op) :
+    (Rec.fanout (rs.map (prefixLayer p))).deliver op
+      = rs.flatMap (·.deliver { op with name := p ++ ['.'] ++ op.name }) := by
+  rw [(fanout_exact _ _).1, List.flatMap_map]
+  congr 1
+  funext r
+  exact (prefix_layer_exact p r op).1
+
+/-! ## sequences of calls on one handle -/
+
+/-- **fanout_all_once_seq**: for ANY sequence of calls on one handle (or its clones) — repeated values, `set`
+    after `increment`, anything — every call reaches every leaf exactly once: the number of `(leaf, call)` received
+    over the whole sequence is (occurrences of the leaf) × (occurrences of the call in the sequence).  No call is
+    swallowed because an earlier one looked the same. -/
+theorem fanout_all_once_seq (h : Handle) (us : List Upd) (l : Nat × Op) (e : Upd) :
+    ((h.applySeq us).flatMap normD).count (l, e) = h.leaves.count l * (us.flatMap norm).count e := by
+  induction us with
+  | nil => simp [Handle.applySeq]
+  | cons u rest ih =>
+    rw [Handle.applySeq_cons, List.flatMap_append, List.count_append, fanout_all_once, ih,
+      List.flatMap_cons, List.count_append, Nat.mul_add]
+
+/-- what a call causes does not depend on the calls made before it -/
+theorem handle_stateless (h : Handle) (before : List Upd) (u : Upd) :
+    h.applySeq (before ++ [u]) = h.applySeq before ++ h.apply u := by
+  simp [Handle.applySeq]
+
+/-! ## source facts (`tools/extract.py`, regenerated from the working tree on every run) -/
+
+set_option maxRecDepth 8000 in
+/-- `Router::route` consults the global mask first and then asks the trie for the deepest ancestor node THAT HOLDS
+    A VALUE (`get_ancestor`, whose result always has a value — hence the `unwrap`), falling back to the default
+    only when there is none: the model's `Builder.route` / `Trie.getAncestor`.  (`get_raw_ancestor`, `get`,
+    `get_ancestor_value` on another key … would be a different function.) -/
+theorem src_router_lookup :
+    Generated.layers_route_body =
+      "{if!self.global_mask.matches(kind){self.default.as_ref()}else{search_routes.get_ancestor(key).map(|st|unsafe{self.targets.get_unchecked(*st.value().unwrap()).as_ref()}).unwrap_or_else(||self.default.as_ref())}}" := by
+  decide
+
+set_option maxRecDepth 8000 in
+/-- `add_route` takes the target index BEFORE pushing the target, or-s the mask into the global mask, and inserts
+    the pattern (as given) with that index into all three tries for ALL and into the kind's own trie otherwise: the
+    model's `Builder.addRoute` -/
+theorem src_add_route :
+    Generated.layers_add_route_prologue
+      = "lettarget_idx=self.targets.len();self.targets.push(Box::new(recorder));self.global_mask=self.global_mask|mask;"
+    ∧ Generated.layers_add_route_arms
+      = ["ALL:counter,gauge,histogram", "COUNTER:counter", "GAUGE:gauge", "HISTOGRAM:histogram"] := by
+  decide
+
+set_option maxRecDepth 8000 in
+/-- `FilterLayer`: `Default` is derived over `(Vec, bool, bool)` (⇒ no pattern, case-sensitive, no DFA —
+    `FilterCfg.dflt`); `from_patterns` stores the patterns as given with `case_insensitive: false, use_dfa: true`
+    (`FilterCfg.fromPatterns`); the three builder methods are a push and two plain assignments (`FilterCfg.step`);
+    `layer()` builds the automaton from exactly these three fields and `should_filter` is `is_match` on the name -/
+theorem src_filter_builder :
+    Generated.layers_filter_layer_derives = "Default,Debug"
+    ∧ Generated.layers_filter_layer_fields = "{patterns:Vec<String>,case_insensitive:bool,use_dfa:bool,}"
+    ∧ Generated.layers_filter_from_patterns_body
+      = "{FilterLayer{patterns:patterns.into_iter().map(|s|s.as_ref().to_string()).collect(),case_insensitive:false,use_dfa:true,}}"
+    ∧ Generated.layers_filter_add_pattern_body = "{self.patterns.push(pattern.as_ref().to_string());self}"
+    ∧ Generated.layers_filter_case_insensitive_body = "{self.case_insensitive=case_insensitive;self}"
+    ∧ Generated.layers_filter_use_dfa_body = "{self.use_dfa=dfa;self}"
+    ∧ Generated.layers_filter_automaton_chain
+      = [".ascii_case_insensitive(self.case_insensitive)", ".kind(self.use_dfa.then_some(AhoCorasickKind::DFA))",
+         ".build(&self.patterns)"]
+    ∧ Generated.layers_filter_layer_result = "Filter{inner,automaton}"
+    ∧ Generated.layers_filter_should_filter_body = "{self.automaton.is_match(key)}" := by
+  decide
+
+set_option maxRecDepth 8000 in
+/-- the `Fanout*` handles have no field but their vector of inner handles (nothing to remember between calls:
+    `handle_stateless`), every method is the plain loop calling the same method with the same argument on each
+    inner handle (`Handle.apply` on `.fan`), and `FanoutHistogram` defines `record` only, so `record_many` is the
+    trait's default loop of `count` × `record` (`rounds`) -/
+theorem src_fanout_handles :
+    Generated.layers_fanout_counter_fields = "{counters:Vec<Counter>,}"
+    ∧ Generated.layers_fanout_gauge_fields = "{gauges:Vec<Gauge>,}"
+    ∧ Generated.layers_fanout_histogram_fields = "{histograms:Vec<Histogram>,}"
+    ∧ Generated.layers_fanout_counter_methods
+      = ["increment:{forcounterin&self.counters{counter.increment(value);}}",
+         "absolute:{forcounterin&self.counters{counter.absolute(value);}}"]
+    ∧ Generated.layers_fanout_gauge_methods
+      = ["increment:{forgaugein&self.gauges{gauge.increment(value);}}",
+         "decrement:{forgaugein&self.gauges{gauge.decrement(value);}}",
+         "set:{forgaugein&self.gauges{gauge.set(value);}}"]
+    ∧ Generated.layers_fanout_histogram_methods
+      = ["record:{forhistogramin&self.histograms{histogram.record(value);}}"]
+    ∧ Generated.histogram_fn_record_many_default = "{for_in0..count{self.record(value);}}" := by
+  decide
+
+set_option maxRecDepth 8000 in
+/-- `PrefixLayer::new` keeps the prefix as given, `layer()` hands it on unchanged, and both key functions build
+    the new name from exactly three pushes — prefix, `'.'`, name — with the labels passed through
+    (`prefixName`, `prefixOp`) -/
+theorem src_prefix :
+    Generated.layers_prefix_new_body = "{PrefixLayer(Box::leak(prefix.into().into_boxed_str()))}"
+    ∧ Generated.layers_prefix_layer_body = "{Prefix{prefix:self.0.into(),inner}}"
+    ∧ Generated.layers_prefix_key_pushes = ["push_str(self.prefix.as_ref())", "push('.')", "push_str(key.name())"]
+    ∧ Generated.layers_prefix_key_result = "Key::from_parts(new_name,key.labels())"
+    ∧ Generated.layers_prefix_key_name_pushes
+      = ["push_str(self.prefix.as_ref())", "push('.')", "push_str(key_name.as_str())"]
+    ∧ Generated.layers_prefix_key_name_result = "KeyName::from(new_name)" := by
+  decide
+
 /-! ## non-vacuity: concrete, non-trivial inputs -/
 
 section examples
@@ -352,6 +605,33 @@ example : ((tree.handle (oph "b")).apply (.hmany 7 2)).map (fun d => (d.1.1, d.2
 -- … while a leaf handle reached without a fanout receives record_many itself
 example : ((Rec.pfx ['p'] (.base 0)).handle (oph "b")).apply (.hmany 7 2)
     = [((0, { oph "b" with name := "p.b".toList }), .hmany 7 2)] := by decide
+
+-- the builder: default() + add_pattern "t", "T" keeps both (case-sensitive), so "T.x" is dropped; setters are
+-- plain assignments (true, then false ⇒ false); from_patterns without any call is case-sensitive
+example : (FilterCfg.dflt.run [.add ['t'], .dfa true, .add ['T']]).patterns = [['t'], ['T']] := by decide
+example : ((FilterCfg.dflt.run [.add ['t'], .add ['T']]).layer (.base 0)).deliver (opc "T.x") = [] := by decide
+example : ((FilterCfg.fromPatterns [['t']]).run [.ci true, .dfa false, .ci false]).ci = false := by decide
+example : ((FilterCfg.fromPatterns [['t']]).layer (.base 0)).deliver (opc "T.x") = [(0, opc "T.x")] := by decide
+example : (((FilterCfg.fromPatterns [['t']]).run [.ci true]).layer (.base 0)).deliver (opc "T.x") = [] := by decide
+
+-- one FilterLayer value, applied, extended, applied again, changed afterwards: two different filters
+example : (FilterCfg.fromPatterns [['t']]).reuse
+      [.layer (.base 0), .cfg (.add ['h']), .layer (.base 1), .cfg (.ci true)]
+    = [.filter [['t']] false (.base 0), .filter [['t'], ['h']] false (.base 1)] := by rfl
+example : ((Rec.fanout ((FilterCfg.fromPatterns [['t']]).reuse
+      [.layer (.base 0), .cfg (.add ['h']), .layer (.base 1), .cfg (.ci true)])).deliver (opc "h")).map (·.1) = [0] := by
+  decide
+
+-- a prefix ending in a dot is kept: "a." + "." + "x"
+example : ((prefixLayer ['a', '.'] (.base 0)).deliver (opc "x")).map (·.2.name) = ["a..x".toList] := by decide
+
+-- set(5), increment(1), set(5) through a fan-out handle over two recorders: all six calls arrive, in order
+example : ((Handle.fan [.leaf 0 (opc "g"), .leaf 1 (opc "g")]).applySeq [.gset 5, .ginc 1, .gset 5]).map (fun d => (d.1.1, d.2))
+    = [(0, .gset 5), (1, .gset 5), (0, .ginc 1), (1, .ginc 1), (0, .gset 5), (1, .gset 5)] := by decide
+
+-- sibling routes "fo", "fo.a", "fo.b" (the radix trie has a value-less node for "fo."): "fo.c" still goes to "fo"
+example : routeIdx [(.all, ['f', 'o']), (.all, ['f', 'o', '.', 'a']), (.all, ['f', 'o', '.', 'b'])] .counter
+    ['f', 'o', '.', 'c'] = some 0 := by decide
 
 end examples
 
